@@ -1,7 +1,7 @@
 """Sidecar contracts for the real functions under /repo (nothing in /repo is annotated)."""
 import importlib
 
-MODULES = ['contracts.libmpf', 'contracts.libmpc', 'contracts.misc', 'contracts.libmpi']
+MODULES = ['contracts.libmpf', 'contracts.libmpc', 'contracts.misc', 'contracts.libmpi', 'contracts.constants', 'contracts.realview']
 _loaded = False
 
 
